@@ -198,7 +198,8 @@ def step (ts : TState) (ws : List String) : TState × String :=
   | ["regpq", pq, comps, plat, sizes, bgmax, bgprio] =>
     match pq.toNat?, natListOf comps, plat.toNat?, natListOf sizes, bgmax.toNat?, bgprio.toInt? with
     | some pq, some comps, some plat, some sizes, some bgmax, some bgprio =>
-      (tRegisterPQ x ts pq comps plat sizes bgmax bgprio, "ok")
+      (if registerOK ts pq sizes then (tRegisterPQ x ts pq comps plat sizes bgmax bgprio, "ok")
+       else (ts, "model-error register: the platform queue exists already or the size classes are not distinct"))
     | _, _, _, _, _, _ => bad
   | ["exec", now, c, d, dk, dnc, comps, plat, inv, prio] =>
     match now.toNat?, c.toNat?, d.toNat?, dk.toNat?, boolOf dnc, natListOf comps, plat.toNat?, natListOf inv, prio.toInt? with
